@@ -118,7 +118,13 @@ func VerifC17Profile() {
 		docs := []string{"", "42", "[]", "a: [", "profile: 1", "profile: x", "profile: x\nvalidations: {}", "- a\n- b", "\"str\"", "profile: x\nvalidations: {}\nviolation: [a]",
 			"profile: x\nviolation: [v]\nvalidations:\n  v:\n    targetClass: ex.C\n    and: []\n", "profile: x\nviolation: [v]\nvalidations:\n  v:\n    targetClass: apiContract.X\n    or: []\n",
 			"profile: x\nviolation: [v]\nvalidations:\n  v:\n    targetClass: apiContract.X\n    not: {}\n", "profile: x\nviolation: [v]\nvalidations:\n  v:\n    targetClass: apiContract.X\n    propertyConstraints: {}\n",
-			"profile: x\nviolation: [v]\nvalidations:\n  v:\n    targetClass: apiContract.X\n    propertyConstraints:\n      core.name: {}\n"}
+			"profile: x\nviolation: [v]\nvalidations:\n  v:\n    targetClass: apiContract.X\n    propertyConstraints:\n      core.name: {}\n",
+			// YAML anchors and aliases, also an alias to a node that contains it (a cyclic document)
+			"profile: x\nviolation: [v]\nvalidations:\n  v: &self\n    targetClass: apiContract.X\n    not: *self\n",
+			"profile: x\nviolation: [v]\nvalidations:\n  v:\n    targetClass: apiContract.X\n    and: &conj\n      - and: *conj\n",
+			"profile: x\nviolation: [v]\nvalidations:\n  v: &self\n    targetClass: apiContract.X\n    propertyConstraints:\n      core.name:\n        nested: *self\n",
+			"profile: x\nviolation: [v, w]\nvalidations:\n  v: &one\n    targetClass: apiContract.X\n    propertyConstraints:\n      core.name:\n        minCount: 1\n  w: *one\n",
+			"profile: &n x\nviolation: [*n]\nvalidations:\n  *n :\n    targetClass: apiContract.X\n    propertyConstraints: &pc\n      core.name: {minCount: 1}\n    or:\n      - propertyConstraints: *pc\n"}
 		text = docs[v.Choice("doc", len(docs))]
 	} else {
 		text = verifMutate(v.Choice("line", nLines), v.Choice("op", len(verifReplacements)+1))
